@@ -80,6 +80,8 @@ pub fn select_menu(thorough: bool, sqlite_only: bool) -> Vec<SelOp> {
     m.push(SelOp::Item(Item::Expr(XS::Scalar(bx(r[3].clone())), Some("m"))));
     m.push(SelOp::Item(Item::Window(XS::Func(FuncK::Sum, vec![XS::Col("b")]), "a", "id", WinFrame::None, "w0")));
     m.push(SelOp::Item(Item::Window(XS::Func(FuncK::Sum, vec![XS::Col("b")]), "a", "id", WinFrame::RowsBetweenPrecedingCurrent(1), "w1")));
+    // a running total whose window order has ties inside a partition (s = 'y': a = 1500 twice)
+    m.push(SelOp::Item(Item::Window(XS::Func(FuncK::Sum, vec![XS::Col("b")]), "s", "a", WinFrame::RowsUnboundedCurrent, "w3")));
     if thorough {
         m.push(SelOp::Item(Item::Window(XS::Func(FuncK::Max, vec![XS::Col("b")]), "s", "id", WinFrame::RowsUnboundedFollowing(2), "w2")));
     }
@@ -119,6 +121,8 @@ pub fn select_menu(thorough: bool, sqlite_only: bool) -> Vec<SelOp> {
     m.push(SelOp::Order(XS::Col("id"), OrderK::Plain(true)));
     m.push(SelOp::Order(XS::Col("a"), OrderK::Nulls(false, false)));
     m.push(SelOp::Order(XS::Col("b"), OrderK::Nulls(true, true)));
+    // a sort key that carries a bound value, with a NULLS ordering (MySQL writes the key twice)
+    m.push(SelOp::Order(XS::Bin(BOp::Add, bx(XS::Col("b")), bx(XS::Val(V::Int(6001)))), OrderK::Nulls(false, true)));
     m.push(SelOp::Order(XS::Col("s"), OrderK::Field(vec![V::Str("y".into()), V::Str("x".into())])));
     m.push(SelOp::Order(XS::Col("s"), OrderK::Field(vec![V::Str("x\\".into()), V::Str("it's".into())])));
     m.push(SelOp::Limit(3));
